@@ -367,11 +367,15 @@ Proof.
   apply fmt_integer_rel; try assumption. split; intros; contradiction.
 Qed.
 
+Lemma value_eq_nil (v : value) : v = VNil \/ v <> VNil.
+Proof. destruct v; [left; reflexivity | right; discriminate ..]. Qed.
+
 Section Rec.
   Variable rec : recT.
   Variable env : env.
   Hypothesis Hrec : rec_ok rec.
   Hypothesis Hkrec : forall c, kovr (rec c).
+  Hypothesis Hkeeps : rec_keeps rec.
   Hypothesis Hos : osane (orc env).
 
   Lemma J_badverb_call verb : J any (rec (CBadVerb verb) ;;; ret tt) (rec (CBadVerb verb) ;;; ret tt).
@@ -505,4 +509,414 @@ Section Rec.
     { ub_opt (fun f => fmt_q (orc env) f v1) (fun f => fmt_q (orc env) f v2); [intros s1 s2 H Ho f; now rewrite (H Ho) | exact Hq]. }
     apply J_JS, J_badverb_call.
   Qed.
+
+  Ltac nbmod :=
+    let s1 := fresh "s1" in let s2 := fresh "s2" in let N := fresh "N" in let S := fresh "S" in
+    intros s1 s2 N S; split;
+    [ destruct N; destruct s1, s2; constructor; cbn in *; auto
+    | unfold SE in *; destruct s1, s2; cbn in *; auto ].
+
+  Lemma J_set_erroring b : J any (modify (fun s => set_erroring s b)) (modify (fun s => set_erroring s b)).
+  Proof. apply J_modify; [nbmod | intros []; reflexivity | intros []; reflexivity]. Qed.
+
+  Lemma kovr_w1 w : kovr (w1 w). Proof. apply kovr_keeps, keeps_w1. Qed.
+  Lemma kovr_wbyte c : kovr (wbyte c). Proof. apply kovr_keeps, keeps_wbyte. Qed.
+  Lemma kovr_wstr str : kovr (wstr str). Proof. apply kovr_keeps, keeps_wstr. Qed.
+
+  Lemma JbadVerb verb : J any (badVerb rec verb) (badVerb rec verb).
+  Proof.
+    unfold badVerb.
+    eapply J_bind; [apply J_set_erroring | intros _ _ _].
+    eapply J_bind; [apply J_wstr | intros _ _ _].
+    eapply J_bind; [apply J_w1 | intros _ _ _].
+    eapply J_bind; [apply J_wbyte | intros _ _ _].
+    apply JS_get_bind. intros a b s1 s2 N S (-> & -> & _).
+    pose proof (nb_arg _ _ N) as Ha. pose proof (nb_val _ _ N) as Hv.
+    assert (J any (wbyte 41 ;;; modify (fun s => set_erroring s false)) (wbyte 41 ;;; modify (fun s => set_erroring s false))) as Htail
+      by (eapply J_bind; [apply J_wbyte | intros; apply J_set_erroring]).
+    destruct (parg a) as [a1|] eqn:Ea, (parg b) as [a2|] eqn:Eb; cbn [orel] in Ha; try contradiction.
+    - (* the operand as an interface value *)
+      destruct (lrel_tinfo _ _ Ha) as (_ & <- & _).
+      assert (JS (HS (a1 = a2)) any
+                ((w1 (WS (type_name a1)) ;;; wbyte 61 ;;; rec (CPrintArg a1 118) ;;; ret tt) ;;; wbyte 41 ;;; modify (fun s => set_erroring s false))
+                ((w1 (WS (type_name a1)) ;;; wbyte 61 ;;; rec (CPrintArg a2 118) ;;; ret tt) ;;; wbyte 41 ;;; modify (fun s => set_erroring s false))) as Hk.
+      { eapply JS_bind; [|intros; exact Htail].
+        eapply JS_bind_k; [apply J_JS, J_w1 | apply kovr_w1 | intros _ _ _].
+        eapply JS_bind_k; [apply J_JS, J_wbyte | apply kovr_wbyte | intros _ _ _].
+        eapply JS_bind; [|intros; now apply J_ret].
+        eapply JS_weaken; [|apply (Hrec (CPrintArg a1 118) (CPrintArg a2 118)); split; [reflexivity | exact Ha]].
+        intros ? ? H. exact H. }
+      apply Hk; auto. intros Ho. destruct (S Ho) as [E _]. rewrite Ea, Eb in E. now injection E.
+    - (* the operand as a reflect.Value *)
+      destruct (pval a) as [[v1 c1]|] eqn:Va, (pval b) as [[v2 c2]|] eqn:Vb; cbn [orel fst snd] in Hv; try contradiction.
+      + destruct Hv as [Hl <-]. destruct (lrel_tinfo _ _ Hl) as (_ & <- & _).
+        assert (JS (HS (v1 = v2)) any
+                  ((w1 (WS (type_name v1)) ;;; wbyte 61 ;;; rec (CPrintValue v1 118 0%nat c1) ;;; ret tt) ;;; wbyte 41 ;;; modify (fun s => set_erroring s false))
+                  ((w1 (WS (type_name v1)) ;;; wbyte 61 ;;; rec (CPrintValue v2 118 0%nat c1) ;;; ret tt) ;;; wbyte 41 ;;; modify (fun s => set_erroring s false))) as Hk.
+        { eapply JS_bind; [|intros; exact Htail].
+          eapply JS_bind_k; [apply J_JS, J_w1 | apply kovr_w1 | intros _ _ _].
+          eapply JS_bind_k; [apply J_JS, J_wbyte | apply kovr_wbyte | intros _ _ _].
+          eapply JS_bind; [|intros; now apply J_ret].
+          eapply JS_weaken; [|apply (Hrec (CPrintValue v1 118 0%nat c1) (CPrintValue v2 118 0%nat c1)); exact (conj eq_refl (conj eq_refl (conj eq_refl (conj eq_refl Hl))))].
+          intros ? ? H. exact H. }
+        apply Hk; auto. intros Ho. destruct (S Ho) as [_ E]. rewrite Va, Vb in E. now injection E.
+      + assert (J any (wstr "<nil>" ;;; wbyte 41 ;;; modify (fun s => set_erroring s false)) (wstr "<nil>" ;;; wbyte 41 ;;; modify (fun s => set_erroring s false))) as Hk
+          by (eapply J_bind; [apply J_wstr | intros; exact Htail]).
+        apply Hk; auto.
+  Qed.
+
+  (* ---------- handleMethods on an operand without methods ---------- *)
+  Lemma J_clear_wrap : J any (modify (fun s => set_wrapErrs (set_wrappedErr s None) false)) (modify (fun s => set_wrapErrs (set_wrappedErr s None) false)).
+  Proof. apply J_modify; [nbmod | intros []; reflexivity | intros []; reflexivity]. Qed.
+
+  Lemma leafish_no_methods a : leafish a = true -> is_error a = false.
+  Proof. destruct a; try discriminate; reflexivity. Qed.
+
+  Definition hm_bad (verb : Z) : M bool :=
+    modify (fun s => set_wrapErrs (set_wrappedErr s None) false) ;;; rec (CBadVerb verb) ;;; ret true.
+
+  Lemma handleMethods_run verb s :
+    match parg s with Some a => leafish a = true | None => True end ->
+    handleMethods rec env verb s =
+    if erroring s then (ROk false, s)
+    else if verb =? 119 then hm_bad verb s else (ROk false, s).
+  Proof.
+    intros Hl. unfold handleMethods, bind at 1, Printer.get. cbn iota beta.
+    destruct (erroring s); [reflexivity|].
+    destruct (parg s) as [a|] eqn:Ea.
+    - rewrite (leafish_no_methods a Hl). cbn [negb orb]. rewrite Bool.andb_true_r.
+      destruct (verb =? 119); [reflexivity|].
+      unfold bind at 1, ret at 1. cbn iota beta.
+      destruct a; try discriminate; destruct (negb (ovr_eqb (povr s) OvrUnsafe)); reflexivity.
+    - destruct (verb =? 119); reflexivity.
+  Qed.
+
+  Lemma leafish_arg s1 s2 : NB s1 s2 ->
+    match parg s1 with Some a => leafish a = true | None => True end /\
+    match parg s2 with Some a => leafish a = true | None => True end.
+  Proof.
+    intros N. pose proof (nb_arg _ _ N) as Ha.
+    destruct (parg s1), (parg s2); cbn [orel] in Ha; try contradiction; [|auto]. destruct Ha as (? & ? & _). auto.
+  Qed.
+
+  Lemma JhandleMethods verb : J eq (handleMethods rec env verb) (handleMethods rec env verb).
+  Proof.
+    intros s1 s2 N S _. destruct (leafish_arg _ _ N) as [L1 L2].
+    rewrite (handleMethods_run verb s1 L1), (handleMethods_run verb s2 L2), <- (nb_err _ _ N).
+    destruct (erroring s1); [refine (conj eq_refl (conj N (conj S _))); apply seg_refl|].
+    destruct (verb =? 119); [|refine (conj eq_refl (conj N (conj S _))); apply seg_refl].
+    assert (J eq (hm_bad verb) (hm_bad verb)) as Hbad.
+    { unfold hm_bad. eapply J_bind; [apply J_clear_wrap | intros _ _ _]. eapply J_bind; [|intros; now apply J_ret].
+      eapply JS_weaken; [|apply (Hrec (CBadVerb verb) (CBadVerb verb)); reflexivity]. intros ? ? _ _. exact Logic.I. }
+    apply Hbad; auto.
+  Qed.
+
+  (* ---------- the kind switch, on related leaves ---------- *)
+  Lemma urel_of_lrel_int t1 u1 t2 u2 : lrel (VInt t1 u1) (VInt t2 u2) -> t1 = t2 /\ urel u1 u2.
+  Proof. intros (_ & _ & [E | (_ & _ & -> & H)]); [injection E as -> ->; split; [reflexivity | now left] | split; [reflexivity | now right]]. Qed.
+  Lemma urel_of_lrel_uint t1 u1 t2 u2 : lrel (VUint t1 u1) (VUint t2 u2) -> t1 = t2 /\ urel u1 u2.
+  Proof. intros (_ & _ & [E | (_ & _ & -> & H)]); [injection E as -> ->; split; [reflexivity | now left] | split; [reflexivity | now right]]. Qed.
+  Lemma strel_of_lrel t1 s1 t2 s2 : lrel (VStr t1 s1) (VStr t2 s2) -> t1 = t2 /\ strel s1 s2.
+  Proof. intros (_ & _ & [E | (_ & _ & -> & H)]); [injection E as -> ->; split; [reflexivity | now left] | split; [reflexivity | now right]]. Qed.
+
+  Lemma urel_pos u1 u2 : urel u1 u2 -> irel u1 u2 -> 0 <= u1 /\ 0 <= u2.
+  Proof. intros _ (H1 & H2 & _). lia. Qed.
+
+  (* the formatter chosen for a leaf *)
+  Definition leaf_fmt (v : value) (verb : Z) : M unit :=
+    match v with
+    | VBool _ b => fmtBool rec b verb
+    | VInt _ u => fmtInteger rec env u true verb
+    | VUint _ u => fmtInteger rec env u false verb
+    | VFloat _ size bits => fmtFloat rec env bits size verb
+    | VStr _ s0 => fmtString rec env s0 verb
+    | _ => ret tt
+    end.
+
+  Lemma Jleaf_fmt v1 v2 verb : lrel v1 v2 -> JS (HS (v1 = v2)) any (leaf_fmt v1 verb) (leaf_fmt v2 verb).
+  Proof.
+    intros Hl. pose proof Hl as (L1 & L2 & Hc).
+    assert (forall v, leafish v = true -> J any (leaf_fmt v verb) (leaf_fmt v verb)) as Hrefl.
+    { intros v Lv. destruct v; try discriminate; cbn [leaf_fmt].
+      - now apply J_ret.
+      - eapply JS_weaken; [|apply (JfmtBool b b)]. intros ? ? _ _. reflexivity.
+      - eapply JS_weaken; [|apply (JfmtInteger u u true verb); [now left | apply urel_pos; now left]]. intros ? ? _ _. reflexivity.
+      - eapply JS_weaken; [|apply (JfmtInteger u u false verb); [now left | apply urel_pos; now left]]. intros ? ? _ _. reflexivity.
+      - apply JfmtFloat.
+      - eapply JS_weaken; [|apply (JfmtString s s verb); now left]. intros ? ? _ _. reflexivity. }
+    destruct Hc as [-> | (Hs & Hr & Hm)]; [apply J_JS, Hrefl, L1|].
+    destruct v1, v2; try contradiction; cbn [leaf_fmt].
+    - eapply JS_weaken; [|apply (JfmtBool b b0)]. intros ? ? H Ho. specialize (H Ho). now injection H.
+    - destruct (urel_of_lrel_int _ _ _ _ Hl) as [_ Hu].
+      eapply JS_weaken; [|apply (JfmtInteger u u0 true verb Hu (urel_pos _ _ Hu))]. intros ? ? H Ho. specialize (H Ho). now injection H.
+    - destruct (urel_of_lrel_uint _ _ _ _ Hl) as [_ Hu].
+      eapply JS_weaken; [|apply (JfmtInteger u u0 false verb Hu (urel_pos _ _ Hu))]. intros ? ? H Ho. specialize (H Ho). now injection H.
+    - destruct (strel_of_lrel _ _ _ _ Hl) as [_ Hu].
+      eapply JS_weaken; [|apply (JfmtString s s0 verb Hu)]. intros ? ? H Ho. specialize (H Ho). now injection H.
+  Qed.
+
+  Lemma print_kind_leaf fuel v verb depth ci : leafish v = true -> v <> VNil ->
+    print_kind fuel rec env v verb depth ci = leaf_fmt v verb.
+  Proof. intros L Hn. destruct v; try discriminate; try congruence; destruct fuel; reflexivity. Qed.
+
+  Lemma lrel_nil_iff v1 v2 : lrel v1 v2 -> (v1 = VNil <-> v2 = VNil).
+  Proof. intros (_ & _ & [-> | (_ & _ & H)]); [tauto|]. destruct v1, v2; try contradiction; split; discriminate. Qed.
+
+  Lemma Jprint_kind fuel v1 v2 verb depth ci : lrel v1 v2 ->
+    JS (HS (v1 = v2)) any (print_kind fuel rec env v1 verb depth ci) (print_kind fuel rec env v2 verb depth ci).
+  Proof.
+    intros Hl. destruct (value_eq_nil v1) as [-> | Hn1].
+    - assert (v2 = VNil) as -> by (now apply (lrel_nil_iff _ _ Hl)). destruct fuel; cbn [print_kind]; apply J_JS, J_wstr.
+    - assert (v2 <> VNil) as Hn2 by (intros E; apply Hn1; now apply (lrel_nil_iff _ _ Hl)).
+      destruct Hl as (L1 & L2 & Hc) eqn:El. rewrite !print_kind_leaf by assumption. apply Jleaf_fmt. exact (conj L1 (conj L2 Hc)).
+  Qed.
+
+  (* ---------- printValue at depth 0, printArg ---------- *)
+  Lemma JS_modify (H : pst -> pst -> Prop) (f g : pst -> pst) :
+    (forall s1 s2, NB s1 s2 -> SE s1 s2 -> H s1 s2 -> NB (f s1) (g s2) /\ SE (f s1) (g s2)) ->
+    (forall s, pl (f s) = pl s) -> (forall s, pl (g s) = pl s) ->
+    JS H any (modify f) (modify g).
+  Proof.
+    intros Hr Hf Hg s1 s2 N S Hs. unfold modify. destruct (Hr s1 s2 N S Hs) as [N' S'].
+    refine (conj Logic.I (conj N' (conj S' _))). exists [], []. rewrite Hf, Hg. split; [reflexivity|]. split; [reflexivity|]. constructor.
+  Qed.
+
+  Lemma kovr_modify f : (forall s, povr (f s) = povr s) -> kovr (modify f).
+  Proof. intros H s. apply H. Qed.
+
+  Lemma printValue0_leaf v verb ci : leafish v = true ->
+    printValue rec env v verb 0 ci = (modify (fun s => set_val (set_arg s None) (Some (v, ci))) ;;; print_kind 8 rec env v verb 0 ci).
+  Proof. intros L. destruct v; try discriminate; reflexivity. Qed.
+
+  Lemma JprintValue0 v1 v2 verb ci : lrel v1 v2 ->
+    JS (HS (v1 = v2)) any (printValue rec env v1 verb 0 ci) (printValue rec env v2 verb 0 ci).
+  Proof.
+    intros Hl. pose proof Hl as (L1 & L2 & _). rewrite !printValue0_leaf by assumption.
+    eapply JS_bind_k; [| apply kovr_modify; intros []; reflexivity | intros _ _ _; now apply Jprint_kind].
+    apply JS_modify; [|intros []; reflexivity | intros []; reflexivity].
+    intros s1 s2 N S Hs. split.
+    - destruct N; destruct s1, s2; constructor; cbn in *; auto.
+    - unfold SE in *. destruct s1, s2; cbn in *. intros Ho. rewrite (Hs Ho). auto.
+  Qed.
+
+  (* what printArg does after recording the operand *)
+  Definition pa_rest (arg : value) (verb : Z) : M unit :=
+        match arg with
+        | VNil =>
+          if isv verb "Tv" then f <- getf ;; wr (pad f (bs "<nil>"))
+          else rec (CBadVerb verb) ;;; ret tt
+        | _ =>
+          if verb =? 84 then f <- getf ;; wr (fmt_s f (type_name arg))
+          else if verb =? 112 then fmtPointer rec env arg 112
+          else
+            match arg with
+            | VRS s0 | VRB s0 => bracket start_prered (w1 (WS s0))
+            | _ =>
+              if is_basic arg then
+                match arg with
+                | VBool _ b => fmtBool rec b verb
+                | VInt _ u => fmtInteger rec env u true verb
+                | VUint _ u => fmtInteger rec env u false verb
+                | VFloat _ size bits => fmtFloat rec env bits size verb
+                | VStr _ s0 => fmtString rec env s0 verb
+                | VBytes t isnil s0 => fmtBytes rec env arg s0 isnil verb (bs "[]byte")
+                | _ => ret tt
+                end
+              else
+                h <- rec (CHandleMethods verb) ;;
+                if rbool h then ret tt
+                else rec (CPrintValue arg verb 0%nat true) ;;; ret tt
+            end
+        end.
+
+  Lemma printArg_inner_unfold arg verb :
+    printArg_inner rec env arg verb =
+    (modify (fun s => set_val (set_arg s (match arg with VNil => None | _ => Some arg end)) None) ;;; pa_rest arg verb).
+  Proof. reflexivity. Qed.
+
+  Lemma Jpa_rest v1 v2 verb : lrel v1 v2 -> JS (HS (v1 = v2)) any (pa_rest v1 verb) (pa_rest v2 verb).
+  Proof.
+    intros Hl. pose proof Hl as (L1 & L2 & _). destruct (lrel_tinfo _ _ Hl) as (_ & Etn & _ & _ & Eb & _).
+    destruct (value_eq_nil v1) as [-> | Hn1].
+    - assert (v2 = VNil) as -> by (now apply (lrel_nil_iff _ _ Hl)). cbn [pa_rest].
+      destruct (isv verb "Tv"); [|apply J_JS, J_badverb_call].
+      apply J_JS. eapply J_bind; [apply J_getf | intros f ? <-; apply J_wr].
+    - assert (v2 <> VNil) as Hn2 by (intros E; apply Hn1; now apply (lrel_nil_iff _ _ Hl)).
+      assert (pa_rest v1 verb = if verb =? 84 then f <- getf ;; wr (fmt_s f (type_name v1))
+                                else if verb =? 112 then rec (CBadVerb 112) ;;; ret tt
+                                else if is_basic v1 then leaf_fmt v1 verb
+                                else (h <- rec (CHandleMethods verb) ;; if rbool h then ret tt else rec (CPrintValue v1 verb 0%nat true) ;;; ret tt)) as ->
+        by (destruct v1; try discriminate; try congruence; reflexivity).
+      assert (pa_rest v2 verb = if verb =? 84 then f <- getf ;; wr (fmt_s f (type_name v2))
+                                else if verb =? 112 then rec (CBadVerb 112) ;;; ret tt
+                                else if is_basic v2 then leaf_fmt v2 verb
+                                else (h <- rec (CHandleMethods verb) ;; if rbool h then ret tt else rec (CPrintValue v2 verb 0%nat true) ;;; ret tt)) as ->
+        by (destruct v2; try discriminate; try congruence; reflexivity).
+      rewrite <- Etn, <- Eb.
+      destruct (verb =? 84); [apply J_JS; eapply J_bind; [apply J_getf | intros f ? <-; apply J_wr]|].
+      destruct (verb =? 112); [apply J_JS, J_badverb_call|].
+      destruct (is_basic v1); [now apply Jleaf_fmt|].
+      eapply JS_bind_k; [| apply Hkrec |].
+      + eapply JS_weaken; [|apply (Hrec (CHandleMethods verb) (CHandleMethods verb)); reflexivity]. intros ? ? _ _. exact Logic.I.
+      + intros h ? <-. destruct (rbool h); [apply J_JS; now apply J_ret|].
+        eapply JS_bind; [|intros; now apply J_ret].
+        eapply JS_weaken; [|apply (Hrec (CPrintValue v1 verb 0%nat true) (CPrintValue v2 verb 0%nat true)); exact (conj eq_refl (conj eq_refl (conj eq_refl (conj eq_refl Hl))))].
+        intros ? ? H. exact H.
+  Qed.
+
+  (* the judgement without the premise SE: for code that records its operand before reading the state *)
+  Definition JS0 (H : pst -> pst -> Prop) {A} (RA : A -> A -> Prop) (m1 m2 : M A) : Prop :=
+    forall s1 s2, NB s1 s2 -> H s1 s2 ->
+      match m1 s1, m2 s2 with
+      | (ROk a1, s1'), (ROk a2, s2') => RA a1 a2 /\ NB s1' s2' /\ SE s1' s2' /\ seg s1 s1' s2 s2'
+      | _, _ => True
+      end.
+
+  Lemma JS0_JS (H : pst -> pst -> Prop) {A} (RA : A -> A -> Prop) m1 m2 : JS0 H RA m1 m2 -> JS H RA m1 m2.
+  Proof. intros Hj s1 s2 N _ Hs. now apply Hj. Qed.
+  Lemma JS0_weaken (H H' : pst -> pst -> Prop) {A} (RA : A -> A -> Prop) m1 m2 :
+    (forall s1 s2, H' s1 s2 -> H s1 s2) -> JS0 H RA m1 m2 -> JS0 H' RA m1 m2.
+  Proof. intros Hi Hj s1 s2 N Hs. apply Hj; auto. Qed.
+
+  Lemma seg_same_pl s1 s1' s2 s2' x y : pl s1' = pl s1 -> pl s2' = pl s2 -> seg s1' x s2' y -> seg s1 x s2 y.
+  Proof. intros E1 E2 (d1 & d2 & A & B & C). exists d1, d2. rewrite <- E1, <- E2. auto. Qed.
+
+  Lemma JprintArg_inner v1 v2 verb : lrel v1 v2 ->
+    JS0 (HS (v1 = v2)) any (printArg_inner rec env v1 verb) (printArg_inner rec env v2 verb).
+  Proof.
+    intros Hl s1 s2 N Hs. rewrite !printArg_inner_unfold. unfold bind at 1 2, modify. cbn iota beta.
+    set (a1 := set_val (set_arg s1 (match v1 with VNil => None | _ => Some v1 end)) None).
+    set (a2 := set_val (set_arg s2 (match v2 with VNil => None | _ => Some v2 end)) None).
+    assert (NB a1 a2) as N'.
+    { unfold a1, a2. destruct N. destruct s1, s2; constructor; cbn in *; auto.
+      destruct (value_eq_nil v1) as [-> | Hn1].
+      - assert (v2 = VNil) as -> by (now apply (lrel_nil_iff _ _ Hl)). exact Logic.I.
+      - assert (v2 <> VNil) as Hn2 by (intros E; apply Hn1; now apply (lrel_nil_iff _ _ Hl)).
+        destruct v1, v2; try congruence; exact Hl. }
+    assert (SE a1 a2) as S'.
+    { unfold SE, a1, a2. destruct s1, s2; cbn in *. intros Ho. rewrite (Hs Ho). auto. }
+    assert (HS (v1 = v2) a1 a2) as Hs' by (unfold HS, a1 in *; destruct s1; exact Hs).
+    pose proof (Jpa_rest v1 v2 verb Hl a1 a2 N' S' Hs') as R.
+    destruct (pa_rest v1 verb a1) as [[u1|?| |?] x], (pa_rest v2 verb a2) as [[u2|?| |?] y]; try exact Logic.I.
+    destruct R as (_ & Nx & Sx & Gx). refine (conj Logic.I (conj Nx (conj Sx _))).
+    apply (seg_same_pl s1 a1 s2 a2); [unfold a1; destruct s1; reflexivity | unfold a2; destruct s2; reflexivity | exact Gx].
+  Qed.
+
+  (* defer p.startSafeOverride().restore() around a body that records its operand first *)
+  Lemma bracket_safe_run {A} (b : M A) s :
+    bracket start_safe_ovr b s =
+    let s0 := if ovr_eqb (povr s) NoOvr then set_ovr (set_pl s (lset (pl s) (OMode MSafe))) OvrSafe else s in
+    let '(o, s2) := b s0 in (o, set_ovr (set_pl s2 (lset (pl s2) (OMode (lmode (pl s))))) (povr s)).
+  Proof.
+    unfold bracket, start_safe_ovr, bind, get_mode, Printer.get.
+    destruct (ovr_eqb (povr s) NoOvr).
+    - rewrite setmode_state. unfold modify, ret. cbn iota beta zeta.
+      destruct (b _) as [o s2]. rewrite restore_state. reflexivity.
+    - unfold ret. cbn iota beta zeta. destruct (b s) as [o s2]. rewrite restore_state. reflexivity.
+  Qed.
+
+  Lemma NB_set_ovr s1 s2 o : NB s1 s2 -> o <> OvrUnsafe -> (o = OvrSafe -> lmode (pl s1) <> MUnsafe) ->
+    NB (set_ovr s1 o) (set_ovr s2 o).
+  Proof. intros [] H1 H2. destruct s1, s2; constructor; cbn in *; auto. Qed.
+
+  Lemma NB_set_pl_ovr s1 s2 l1 l2 o : NB s1 s2 -> lmode l1 = lmode l2 -> o <> OvrUnsafe -> (o = OvrSafe -> lmode l1 <> MUnsafe) ->
+    NB (set_ovr (set_pl s1 l1) o) (set_ovr (set_pl s2 l2) o).
+  Proof. intros [] H0 H1 H2. destruct s1, s2; constructor; cbn in *; auto. Qed.
+
+  Lemma Jbracket_safe (b1 b2 : M unit) : kovr b1 ->
+    JS0 (fun _ _ => True) any b1 b2 -> JS0 (fun _ _ => True) any (bracket start_safe_ovr b1) (bracket start_safe_ovr b2).
+  Proof.
+    intros Hk Hb s1 s2 N _. rewrite !bracket_safe_run. cbn zeta.
+    pose proof (nb_ovr _ _ N) as Eo. rewrite <- Eo, <- (nb_mode _ _ N).
+    set (a1 := if ovr_eqb (povr s1) NoOvr then set_ovr (set_pl s1 (lset (pl s1) (OMode MSafe))) OvrSafe else s1).
+    set (a2 := if ovr_eqb (povr s1) NoOvr then set_ovr (set_pl s2 (lset (pl s2) (OMode MSafe))) OvrSafe else s2).
+    assert (NB a1 a2 /\ povr a1 = OvrSafe /\ seg s1 a1 s2 a2) as (Na & Oa & Ga).
+    { unfold a1, a2. destruct (ovr_eqb (povr s1) NoOvr) eqn:Ev.
+      - split; [|split].
+        + apply NB_set_ovr; [|discriminate|].
+          * apply NB_set_pl; [exact N | now rewrite !lmode_setmode | intros _; rewrite lmode_setmode; discriminate].
+          * intros _. rewrite pl_set_pl, lmode_setmode. discriminate.
+        + destruct s1; reflexivity.
+        + exists [OMode MSafe], [OMode MSafe].
+          assert (forall s l o, pl (set_ovr (set_pl s l) o) = l) as Hp by (intros [] ? ?; reflexivity).
+          rewrite !Hp, !rlog_lset. split; [reflexivity|]. split; [reflexivity|]. cbn [rev app]. rewrite lmode_setmode. apply ds_mode. constructor.
+      - split; [exact N|]. split; [|apply seg_refl].
+        pose proof (nb_nou _ _ N). destruct (povr s1); try discriminate; congruence. }
+    specialize (Hb a1 a2 Na Logic.I). pose proof (Hk a1) as Ek.
+    destruct (b1 a1) as [[u1|?| |?] x], (b2 a2) as [[u2|?| |?] y]; try exact Logic.I.
+    destruct Hb as (_ & Nx & Sx & Gx). cbn [snd] in Ek.
+    assert (forall s l o, pl (set_ovr (set_pl s l) o) = l) as Hp by (intros [] ? ?; reflexivity).
+    refine (conj Logic.I (conj _ (conj _ _))).
+    - apply NB_set_pl_ovr; [exact Nx | now rewrite !lmode_setmode | apply N |].
+      intros Ho. rewrite lmode_setmode. now apply N.
+    - unfold SE. assert (forall s l o, parg (set_ovr (set_pl s l) o) = parg s /\ pval (set_ovr (set_pl s l) o) = pval s /\ povr (set_ovr (set_pl s l) o) = o) as Hf by (intros [] ? ?; auto).
+      destruct (Hf x (lset (pl x) (OMode (lmode (pl s1)))) (povr s1)) as (-> & -> & ->).
+      destruct (Hf y (lset (pl y) (OMode (lmode (pl s1)))) (povr s1)) as (-> & -> & _).
+      intros Ho. apply Sx. rewrite Ek. exact Oa.
+    - eapply seg_trans; [exact Ga|]. eapply seg_trans; [exact Gx|].
+      exists [OMode (lmode (pl s1))], [OMode (lmode (pl s1))]. rewrite !Hp, !rlog_lset. split; [reflexivity|]. split; [reflexivity|].
+      cbn [rev app]. rewrite lmode_setmode. apply ds_mode. constructor.
+  Qed.
+
+  Lemma JprintArg_body v1 v2 verb : lrel v1 v2 ->
+    JS0 (HS (v1 = v2)) any (printArg_body rec env v1 verb) (printArg_body rec env v2 verb).
+  Proof.
+    intros Hl. unfold printArg_body. destruct (lrel_tinfo _ _ Hl) as (_ & _ & Es & _). rewrite <- Es.
+    destruct (is_safe_value v1) eqn:E; cbn [bracket_if]; [|now apply JprintArg_inner].
+    assert (v1 = v2) as <- by (apply (lrel_safe_eq _ _ Hl); now rewrite E).
+    eapply JS0_weaken; [|apply Jbracket_safe].
+    - intros ? ? _. exact Logic.I.
+    - apply kovr_keeps, keeps_printArg_inner, Hkeeps.
+    - eapply JS0_weaken; [|apply (JprintArg_inner v1 v1 verb Hl)]. intros ? ? _ _. reflexivity.
+  Qed.
+
+  Lemma JprintArg v1 v2 verb : lrel v1 v2 ->
+    JS0 (HS (v1 = v2)) any (printArg rec env v1 verb) (printArg rec env v2 verb).
+  Proof.
+    intros Hl. pose proof Hl as (L1 & L2 & _). destruct (lrel_tinfo _ _ Hl) as (_ & _ & _ & Er & _).
+    assert (forall v, leafish v = true -> printArg rec env v verb =
+              if is_registered v then bracket start_safe_ovr (printArg_body rec env v verb) else printArg_body rec env v verb) as Hu.
+    { intros v L. unfold printArg. destruct (is_registered v); [reflexivity|]. destruct v; try discriminate; reflexivity. }
+    rewrite (Hu v1 L1), (Hu v2 L2), <- Er.
+    destruct (is_registered v1) eqn:E; [|now apply JprintArg_body].
+    assert (v1 = v2) as <- by (apply (lrel_safe_eq _ _ Hl); rewrite E; apply Bool.orb_true_r).
+    eapply JS0_weaken; [|apply Jbracket_safe].
+    - intros ? ? _. exact Logic.I.
+    - apply kovr_keeps, keeps_printArg_body, Hkeeps.
+    - eapply JS0_weaken; [|apply (JprintArg_body v1 v1 verb Hl)]. intros ? ? _ _. reflexivity.
+  Qed.
+
+  (* one step of the evaluator on related calls *)
+  Lemma Jstep c1 c2 : crel c1 c2 ->
+    JS (HS (cP c1 c2)) eq
+       (match c1 with
+        | CPrintArg v verb => printArg rec env v verb ;;; ret RU
+        | CPrintValue v verb depth ci => printValue rec env v verb depth ci ;;; ret RU
+        | CBadVerb verb => badVerb rec verb ;;; ret RU
+        | CHandleMethods verb => b <- handleMethods rec env verb ;; ret (RBo b)
+        | _ => ret RU end)
+       (match c2 with
+        | CPrintArg v verb => printArg rec env v verb ;;; ret RU
+        | CPrintValue v verb depth ci => printValue rec env v verb depth ci ;;; ret RU
+        | CBadVerb verb => badVerb rec verb ;;; ret RU
+        | CHandleMethods verb => b <- handleMethods rec env verb ;; ret (RBo b)
+        | _ => ret RU end).
+  Proof.
+    intros Hc. destruct c1, c2; cbn [crel] in Hc; try contradiction; cbn [cP].
+    - destruct Hc as [<- Hl]. eapply JS_bind; [|intros; now apply J_ret]. apply JS0_JS. now apply JprintArg.
+    - destruct Hc as (<- & -> & -> & <- & Hl). eapply JS_bind; [|intros; now apply J_ret]. now apply JprintValue0.
+    - subst. apply J_JS. eapply J_bind; [apply JbadVerb | intros; now apply J_ret].
+    - subst. apply J_JS. eapply J_bind; [apply JhandleMethods | intros b ? <-; now apply J_ret].
+  Qed.
 End Rec.
+
+(* every fuel: the evaluator on related leaf calls *)
+Theorem ev_leaf_rel fuel env : osane (orc env) -> rec_ok (ev fuel env).
+Proof.
+  intros Ho. induction fuel as [|k IH]; intros c1 c2 Hc.
+  - intros s1 s2 _ _ _. exact Logic.I.
+  - pose proof (Jstep (ev k env) env IH (fun c => kovr_ev k env c) (keeps_ev k env) Ho c1 c2 Hc) as H.
+    destruct c1, c2; cbn [crel] in Hc; try contradiction; exact H.
+Qed.
+
+Print Assumptions ev_leaf_rel.
